@@ -9,6 +9,7 @@ pub mod glyfgraph;
 pub mod iftdrv;
 pub mod klipdrv;
 pub mod skdrv;
+pub mod capfam;
 pub mod cff2prog;
 pub mod cffprog;
 pub mod sup;
@@ -30,6 +31,7 @@ pub fn drivers() -> Vec<(&'static str, Driver)> {
         ("ift", iftdrv::drive as Driver),
         ("glyfgraph", glyfgraph::drive as Driver),
         ("klippa", drive_klippa as Driver),
+        ("capfam", capfam::drive as Driver),
     ]
 }
 
@@ -249,9 +251,12 @@ pub fn viol_identity(v: &Viol) -> String {
 pub fn narrow(case: &Value, sub: u64) -> Value {
     let mut c = case.clone();
     let batch = matches!(c["driver"].as_str(), Some("ttprog") | Some("cffprog") | Some("cff2prog")) && !c["o1"].is_null();
-    let batch = batch || (c["driver"] == "glyfgraph" && !c["s0"].is_null());
+    let batch = batch || (c["driver"] == "glyfgraph" && !c["s0"].is_null()) || c["driver"] == "capfam";
     if batch && c["only"].is_null() {
         c["only"] = json!(sub);
+        if c["driver"] == "capfam" {
+            c["described"] = json!(capfam::describe(&c));
+        }
         if c["driver"] == "ttprog" {
             c["described"] = json!(ttprog::describe(&c));
         }
@@ -264,7 +269,8 @@ pub fn narrow(case: &Value, sub: u64) -> Value {
 pub fn resume_batch(case_json: &str, f: &Failure) -> Option<String> {
     let mut c: Value = serde_json::from_str(case_json).ok()?;
     let batch = (matches!(c["driver"].as_str(), Some("ttprog") | Some("cffprog") | Some("cff2prog")) && !c["o1"].is_null())
-        || (c["driver"] == "glyfgraph" && !c["s0"].is_null());
+        || (c["driver"] == "glyfgraph" && !c["s0"].is_null())
+        || c["driver"] == "capfam";
     if !batch || !c["only"].is_null() {
         return None;
     }
@@ -440,6 +446,8 @@ pub fn phases(quick: bool) -> Result<Vec<Phase>, String> {
                 "chain_depths": glyfgraph::CHAIN_DEPTHS, "chain_ends": ["simple", "cycle to glyph 0"]}),
         )],
     ));
+    // 2d. capacity boundary families (structured sweeps across every fixed capacity)
+    out.push(vec_phase("capfam", capfam::gen_cases(), 1, 1, vec![("capfam".into(), capfam::bounds())]));
     // 2c. klippa subsetter (observations in C02, judged by C20)
     let (ksize, kbytes) = if quick { (8 << 10, 32) } else { (64 << 10, 128) };
     let kl = gen_klippa_cases(ksize, kbytes, !quick);
